@@ -99,12 +99,21 @@ def run(ctx):
             lits = G.path_literals(ev, b, P, checks_only=True)
             pair = [a for a, p in lits if p and a[1] == "is_identity" and a[2].op == "call" and B.cname(a[2]) == "Pairing::pairing"]
             ctx.ob("E4.pairing", fkc + "/ok", len(pair) == 1, "Ok exit dominated by is_identity(pairing(pairs)) == true", where=where(c, b))
-        pushes = [s for s in ev.sites.values() if s.callee[0] == "Vec::<T, A>::push"]
-        final = [s for s in pushes if any(x.op == "param" and x.a[1] == "sig" for x in subterms(s.args[1])) and any(x.op == "call" and B.cname(x) == "Neg::neg" for x in subterms(s.args[1]))]
-        ctx.ob("E5.equation", fkc + "/final", len(final) == 1, "exactly one push of (sig, -G) after the loop (found %d)" % len(final), where=where(c))
+        from ..core import poly as PL
+        from . import equations as EQ
+
+        cand = {}
+        for s_ in ev.sites.values():
+            for a_ in s_.args:
+                for x in subterms(strip_sites(a_)):
+                    if x.op == "agg" and x.a[0][0] == "tuple" and len(x.a[1]) == 2 and any(y.op == "param" and y.a[1] == "sig" for c_ in x.a[1] for y in subterms(c_)):
+                        cand[x] = True
+        final = [x for x in cand if PL.named(PL.bilinear([tuple(x.a[1])], EQ.std_atom())) == {("G", "sig"): -1}]
+        ctx.ob("E5.equation", fkc + "/final", len(final) == 1 and len(cand) == 1, "exactly one closing pair (sig, -G) (pairs mentioning sig: %d, of the form -(sig (x) G): %d)" % (len(cand), len(final)), where=where(c))
     for fk2 in ("<Bls12381G1Impl as Pairing>::pairing", "<Bls12381G2Impl as Pairing>::pairing"):
         check_pipeline(ctx, P, fk2)
     # positive control for the adapter deny-list
+    F.check_len_rejections(ctx, "E4.len-range", P, "<AggregateSignature<C> as TryFrom<&[Signature<C>]>>::try_from", "sigs", lambda L: L >= 2, list(range(0, 301)), "number of signatures")
     # "aggregation of fewer than two signatures ... is refused": refused, not aborted on (both profiles)
     from . import aborts as A_
 
